@@ -14,8 +14,8 @@ LEVEL_TEXT = (
     'Lean theorems over a statement-by-statement model of xlfunctions/utils.py and date.py against the 1900 '
     'date system on the Gregorian calendar: the civil calendar conversion is a bijection on all of Z (arithmetic '
     'proof: a 400-row year table plus linear arithmetic), serial<->date is a monotone bijection on whole days with '
-    'the anchors 1, 59, 61; YEAR/MONTH/DAY/WEEKDAY (every return type, table obligation on the tuples extracted '
-    'from date.py)/ISOWEEKNUM of every serial 1..2958465 are the Gregorian fields; DATE inverse and carry; '
+    'the anchors 1, 59, 61; YEAR/MONTH/DAY/WEEKDAY (every return type, table obligation on the numbering tables obtained by '
+    'probing the running WEEKDAY)/ISOWEEKNUM of every serial 1..2958465 are the Gregorian fields; DATE inverse and carry; '
     'EDATE/EOMONTH clipping; DAYS; DATEDIF D/M/Y; YEARFRAC bases 2 and 3; the fraction of a serial is the time of '
     'day. Partial: YEARFRAC bases 0/4 away from 28 February, basis 1 inside a common year; datetime->serial '
     'only at midnight (D45). The model is tied to the running code by a differential run: every serial in the '
@@ -43,8 +43,9 @@ TRUSTED = [
     'Python datetime (proleptic Gregorian ordinal, isocalendar, OverflowError/ValueError outside years 1..9999), '
     'dateutil.relativedelta (month carry, day clipping), dateutil.rrule (daily count), yearfrac 0.4.8 '
     '(30e360, 30e360_matu, act_afb): hand models of the part used',
-    'harness/extractors/c18_date.py: that it prints the WEEKDAY tuples the code uses (cross-checked: every '
-    'return type is also exercised on every serial)',
+    'harness/extractors/c18_date.py: the WEEKDAY tables are observed behaviour (WEEKDAY called on a known Monday..Sunday '
+    'for the omitted and every candidate return type -3..40, 100, 255, 1000), not source text; that one week stands '
+    'for all weeks is cross-checked by exercising every documented return type on every serial',
     'IEEE-754 rounding and microsecond rounding of timedelta are not modelled: time-of-day inputs are multiples '
     'of 1/128 day (whole seconds, exact in binary), quotients are compared within 4 ulp',
     'argument coercion by validate_args is modelled in C08; here arguments arrive as int, float or datetime',
